@@ -3,6 +3,7 @@ the tracer, monitors, block-level replay on the Lean model)."""
 import json
 import os
 import random
+from fractions import Fraction
 import sys
 import traceback
 
@@ -106,6 +107,74 @@ def make_spec(stream, rng):
         spec["cold"]["capacity"] = 10 * (va + vb)
         spec["observations"] = [a, b]
         spec["delay"] = None
+    elif stream == "edge":
+        # boundary values of every admission / tiering decision, hit exactly
+        spec = simgen.gen_spec(rng, pairing=rng.choice(["queue", "batch", "queue", "dynamic"]))
+        spec["delay"] = None
+        obs = spec["observations"]
+        which = rng.choice(["threshold", "threshold2", "hotfit", "coldfit", "machines", "ingestlimit", "arrays", "rate"])
+        nm = len(spec["machines"])
+        for o in obs:
+            o["demand"] = 1
+        spec["total_arrays"] = max(spec["total_arrays"], len(obs))
+        if which in ("threshold", "threshold2"):
+            # used fraction reaches EXACTLY 0.6
+            a = obs[0]
+            a["duration"] = rng.choice([2, 3, 4, 6])
+            a["rate"] = 3 * rng.randint(1, 3)
+            if which == "threshold" or len(obs) < 2:
+                spec["observations"] = obs = [a]
+                vol = a["rate"] * a["duration"]
+            else:
+                b = obs[1]
+                b["duration"], b["rate"] = a["duration"], a["rate"]
+                b["start"] = a["start"] + a["duration"] + rng.choice([0, 1])
+                a["workflow"] = {"nodes": [{"id": 0, "comp": 12 * max(m["flops"] for m in spec["machines"])}], "edges": []}
+                spec["observations"] = obs = [a, b]
+                vol = 2 * a["rate"] * a["duration"]
+            spec["hot"]["capacity"] = vol * 5 // 3
+            spec["hot"]["rate"] = max(spec["hot"]["rate"], a["rate"])
+            spec["cold"]["capacity"] = spec["hot"]["capacity"] + rng.choice([0, 7])
+        elif which == "hotfit" and len(obs) >= 2:
+            a, b = obs[0], obs[1]
+            b["start"] = a["start"] + 1
+            a["duration"] = max(a["duration"], 3)
+            va, vb = a["rate"] * a["duration"], b["rate"] * b["duration"]
+            # when b is due (one step into a's ingest) the free space is exactly b's volume
+            spec["hot"]["capacity"] = max(va, vb) + 1 + 10 * (va + vb)
+            spec["hot"]["capacity"] = a["rate"] * 2 + vb if a["rate"] * 2 + vb > max(va, vb) else spec["hot"]["capacity"]
+            spec["cold"]["capacity"] = 20 * (va + vb)
+            spec["observations"] = obs = [a, b]
+        elif which == "coldfit":
+            a = obs[0]
+            spec["cold"]["capacity"] = a["rate"] * a["duration"]
+        elif which == "machines":
+            for o in obs:
+                o["ingest_demand"] = nm
+            spec["max_ingest"] = nm
+        elif which == "ingestlimit" and len(obs) >= 2 and nm >= 2:
+            a, b = obs[0], obs[1]
+            b["start"] = a["start"] + 1
+            a["duration"] = max(a["duration"], 3)
+            a["ingest_demand"] = 1
+            b["ingest_demand"] = nm - 1
+            spec["max_ingest"] = nm
+        elif which == "arrays" and len(obs) >= 2:
+            a, b = obs[0], obs[1]
+            b["start"] = a["start"] + 1
+            a["duration"] = max(a["duration"], 3)
+            a["demand"] = rng.randint(1, 3)
+            b["demand"] = rng.randint(1, 3)
+            spec["total_arrays"] = a["demand"] + b["demand"]
+        elif which == "rate":
+            spec["hot"]["rate"] = max(o["rate"] for o in obs)
+        for o in obs:
+            o["ingest_demand"] = min(o["ingest_demand"], spec["max_ingest"], nm)
+        if which not in ("threshold", "threshold2", "hotfit", "coldfit"):
+            tot = sum(o["rate"] * o["duration"] for o in obs)
+            spec["hot"]["capacity"] = int(tot / 0.6) + 5
+            spec["cold"]["capacity"] = spec["hot"]["capacity"] + 5
+        opt["edge"] = which
     elif stream == "delays":
         spec = simgen.gen_spec(rng)
         if rng.random() < 0.6:
@@ -118,6 +187,10 @@ def make_spec(stream, rng):
                     nd["comp"] = max(nd["comp"], max(m["flops"] for m in spec["machines"]))
     else:
         raise ValueError(stream)
+    sk = spec["scheduling"]
+    if sk.get("split"):
+        for o in spec["observations"]:
+            sk["split"].setdefault(o["name"], [1, len(spec["machines"])])
     return spec, opt
 
 
@@ -127,9 +200,12 @@ def classify_c05(spec, rec, mon):
         return None
     bound = simgen.serial_bound(spec)
     exc = rec["exception"]
+    exceeded = mon.max_hot_used > Fraction(3, 5)
     if exc is not None:
         where = exc.get("where") or ("?", 0, "?")
         sig = "exc:%s@%s:%s" % (exc["type"], where[0], where[2])
+        if exc["type"] == "IndexError" and where[2] == "run" and exceeded:
+            sig += ":usage-exceeded-0.6"
         times = [a[0]["now"] for a in mon.admit.values() if a]
         if exc["type"] == "RuntimeError" and where[2] == "provision_ingest_resources" and \
                 len(times) != len(set(times)):
@@ -140,7 +216,7 @@ def classify_c05(spec, rec, mon):
         fin = rec.get("final_state", {})
         sig = "nonterminated"
         if fin.get("cold_stored"):
-            sig += ":observation-left-in-cold"
+            sig += ":observation-left-in-cold" + (":usage-exceeded-0.6" if exceeded else "")
         elif fin.get("hot_over_threshold"):
             sig += ":hot-over-threshold"
         return {"prop": "C05", "kind": "feasible-run-did-not-terminate", "sig": sig,
@@ -180,7 +256,8 @@ def run_runlevel(stream, seed, rng, props):
         diffs.append({"block": 0, "kind": "run-level:" + ",".join(r["diff"]), "time": None,
                       "where": {"impl": a[max(0, j - 80): j + 80], "model": b[max(0, j - 80): j + 80]},
                       "until": until, "resume": resume})
-    viol = [dict(v, sig=v.get("sig", v["kind"])) for v in rec.get("violations", [])] if until is None else []
+    viol = [dict(v, sig=v.get("sig", v["kind"])) for v in rec.get("violations", [])
+            if until is None or v["prop"] in ("C13", "C11")]
     return {"stream": stream, "seed": seed, "spec": spec, "opt": {"until": until, "resume": resume},
             "end": rec.get("end"), "exception": rec.get("exception"), "nonterminated": rec.get("nonterminated", False),
             "violations": viol, "features": rec.get("features", {}), "blocks": rec.get("blocks", 0),
